@@ -58,6 +58,7 @@ def cases(draw):
         c['kind'] = draw(st.sampled_from(S3_KINDS if backend == 's3c' else B2_KINDS))
         c['retry_after'] = draw(st.sampled_from([None, 0, 1]))
         c['error_body'] = draw(st.sampled_from(['xml', 'xml', 'html', 'text', 'json', 'empty']))
+        c['exc'] = draw(st.sampled_from(['reset', 'protocol']))     # how a dropped connection shows: reset, or closed by the peer
         if backend == 'b2':
             c['target'] = draw(st.sampled_from(['main', 'main', 'main', 'authorize', 'list_buckets'] +
                                                (['get_upload_url', 'get_upload_url'] if op in ('upload', 'upload_stream') else [])))
@@ -86,6 +87,8 @@ def grid():
                         if backend == 'b2':
                             c.update(target='main', restricted=True, pre_authenticated=True)
                         out.append(c)
+                        if kind in ('before-response', 'response-body'):
+                            out.append(dict(c, exc='protocol'))
     for op in OPS:
         for prim in LOCAL_PRIMS:
             for after in (0, 1, 2, 3):
@@ -305,6 +308,8 @@ def _run(case, work, loop):
     else:
         kind = case['kind']
         classes.append('kind:' + kind)
+        if case.get('exc') == 'protocol' and kind in ('before-response', 'response-body'):
+            classes.append('drop-as-protocol-error')
         budget_tries = 4
         if bk == 's3c':
             from replicat.backends.s3c import S3Compatible
@@ -328,13 +333,14 @@ def _run(case, work, loop):
         def make_fault():
             f = None
             if kind in ('connect', 'before-response'):
-                f = {'at': kind}
+                f = {'at': kind, 'exc': case.get('exc')}
             elif kind == 'request-body':
                 f = {'at': 'request-body', 'after': case['after']}
             elif kind == 'response-body':
                 has_body = (op in ('download', 'download_stream') or (bk == 's3c' and op == 'list')) and case.get('target', 'main') == 'main'
                 # only these answers are streamed in pieces by the fakes; elsewhere the drop happens before the response
                 f = {'at': 'response-body', 'after': case['after']} if has_body else {'at': 'before-response'}
+                f['exc'] = case.get('exc')
             elif kind.startswith('status'):
                 code = int(kind[6:9])
                 f = {'at': 'status', 'status': code, 'retry_after': case.get('retry_after'), 'body': case.get('error_body', 'xml')}
